@@ -2,6 +2,7 @@ package main
 
 import (
 	"bufio"
+	"bytes"
 	"crypto/rand"
 	"encoding/json"
 	"math"
@@ -42,9 +43,15 @@ func NewTraceWriter(path string) *TraceWriter {
 }
 func (t *TraceWriter) Write(v any) {
 	t.N++
-	if err := t.enc.Encode(v); err != nil {
+	b, err := json.Marshal(v)
+	if err != nil {
 		panic(err)
 	}
+	if bytes.Contains(b, []byte(":null")) { // TLC's Json module cannot read null
+		panic("trace line contains a JSON null: " + string(b[:min(len(b), 300)]))
+	}
+	t.w.Write(b)
+	t.w.WriteByte('\n')
 }
 func (t *TraceWriter) Close() { t.w.Flush(); t.f.Close() }
 
